@@ -230,6 +230,14 @@ func (fx *FnCtx) evalSpec(env *Env, e SpecExpr) SV {
 		return fx.evalCall(env, x)
 	case *SIndex:
 		base := fx.evalSpec(env, x.X)
+		if m, ok := base.V.T.(*types.Map); ok && len(base.V.L) == 1 && base.V.L[0].Sort.Kind == SArray {
+			// ghost map
+			key := fx.typed(fx.evalSpec(env, x.I), m.Key())
+			if key.V.L[0].Sort != base.V.L[0].Sort.Idx {
+				fx.specFail(e, "ghost map key type mismatch")
+			}
+			return SV{V: Value{T: m.Elem(), L: []*Term{Select(base.V.L[0], key.V.L[0])}}}
+		}
 		idx := fx.evalIdx(env, x.I)
 		switch u := base.V.T.Underlying().(type) {
 		case *types.Slice:
